@@ -142,7 +142,7 @@ def small_scope(ctx):
                         for p in targets_parent:
                             if p in args:
                                 continue
-                            for pos in ((0, 1, 2, 3) if k == "in" else (0,)):
+                            for pos in ((0, 1, 2, 3, -1, -2, -4, -5) if k == "in" else (0,)):
                                 cases.append((shp, f"in:{p}:{pos}:{','.join(args)}" if k == "in" else f"el:{p}:{','.join(args)}"))
                     else:
                         for x in ("t1", "t2", "s4"):
@@ -156,7 +156,7 @@ def run(ctx: Ctx):
                 "call the .contents nesting by identity vs the independent list-of-lists spec and vs the Lean model. non-trivial = "
                 "an argument came from the same parent / elsewhere in the forest / was a BeautifulSoup object / was repeated")
     ctx.assumptions = ["calls that would put an element beneath itself are never generated (outside the quantifier)",
-                       "negative positions are never generated (outside the modelled domain, see DESIGN.md C02)"]
+                       "positions are any Python integers: negative ones count from the end as in list.insert (Model/Heap.lean normPos)"]
     drv = Driver()
     n_hist = ctx.n(400, 6000)
     steps = ctx.n(25, 40)
